@@ -373,7 +373,9 @@ def nontrivial_eval(prog, impl):
 
 C05 = CoreProp("C05", ("eval",), c05_programs, c05_oracle, nontrivial=nontrivial_eval,
                rule="corpus + exhaustive 3-leaf trees per combinator over a 5-dictionary grid + random typed "
-                    "trees/DAGs (depth<=4); non-trivial = >=3 node kinds and >=2 distinct outcomes over its dictionaries")
+                    "trees/DAGs (depth<=4); non-trivial = >=3 node kinds and >=2 distinct outcomes over its dictionaries; directed families: "
+                    "equal-hash value sequences, lifted falsy keywords, constants (tuples holding lists included) at every wrapping "
+                    "position with consumers that edit them in place, dataset classes (plain / derived / nested)")
 
 
 # ================================================================== C01
@@ -630,7 +632,8 @@ C01 = CoreProp("C01", ("eval", "keys", "cache", "reads"), c01_programs, c01_orac
                rule="histories of 5-8 dictionaries (single-key perturbations, revisits) on one long-lived graph, each "
                     "evaluation paired with the same evaluation under labrea.cache.disabled(); phase 2: for keys the model "
                     "saw read, set/delete exactly that key after warming the cache; non-trivial = history with >=1 cache "
-                    "hit and >=2 stores")
+                    "hit and >=2 stores; directed families: ONE dictionary object edited in place between calls, datasets "
+                    "reading a section and a key inside it")
 
 
 # ================================================================== C02
@@ -864,7 +867,8 @@ def _effects_off(o):
 C02 = CoreProp("C02", ("trace", "cache", "keys", "eval"), c02_programs, c02_oracle, nontrivial=nontrivial_cache,
                rule="dataset DAGs (sharing, overloads, pre-set options, nocache nodes) evaluated on dictionary families with "
                     "exact repeats, repeats with never-mentioned keys added, and top-level key permutations; body/effect "
-                    "execution counters per dataset; non-trivial = >=1 hit and >=2 stores")
+                    "execution counters per dataset; non-trivial = >=1 hit and >=2 stores; directed families: effects across derived "
+                    "datasets, a get/set-only backend and MemoryCache holding None and every falsy value in a diamond")
 
 
 # ================================================================== C03
@@ -1069,7 +1073,8 @@ C03 = CoreProp("C03", ("keys", "eval", "reads"), c03_programs, c03_oracle, phase
                nontrivial=nontrivial_eval, hashseeds=("0", "1", "4242"),
                rule="keys()/evaluate on fresh graphs over dictionary families; phase 2 re-evaluates on the dictionary "
                     "restricted to the reported keys (independent restrict) and on add/change/delete perturbations outside "
-                    "them; a quarter of the programs re-run under two further PYTHONHASHSEEDs")
+                    "them; a quarter of the programs re-run under two further PYTHONHASHSEEDs; directed families: Maps whose "
+                    "iterated key and read key are prefixes / sections of one another, dataset classes")
 
 
 # ================================================================== C04
@@ -1586,7 +1591,8 @@ def c06_oracle(prog, meta, impl, model):
 
 C06 = CoreProp("C06", ("trace", "construct"), c06_programs, c06_oracle, nontrivial=nontrivial_eval,
                rule="random graphs whose every user callable logs its execution; construction log must be empty, "
-                    "evaluation log must equal the reference semantics' ordered trace")
+                    "evaluation log must equal the reference semantics' ordered trace; directed families: namespaces with dataset "
+                    "defaults, construction steps, dataset classes that redefine inherited members")
 
 
 # ================================================================== C08
@@ -1765,7 +1771,8 @@ def c08_oracle(prog, meta, impl, model):
 C08 = CoreProp("C08", ("eval", "validate", "keys", "mut", "reads"), c08_programs, c08_oracle, nontrivial=nontrivial_eval,
                rule="wrapper nestings of depth 1-3 (forced / default) and datasets with options/default_options and "
                     "with_options/with_default_options derivatives, P, D, o overlapping inside the same sections; each compared "
-                    "with the inner expression evaluated under an independently computed overlay; deep snapshots of every input")
+                    "with the inner expression evaluated under an independently computed overlay; deep snapshots of every input; "
+                    "directed families: derived-dataset chains, bodies editing arguments in place, section + inner key readers")
 
 
 # ================================================================== C09
@@ -1995,7 +2002,8 @@ C09 = CoreProp("C09", ("eval", "keys", "explain", "reads"), c09_programs, c09_or
                (param_in_option_value_program(prog) or brace_resubstitution_program(prog)),
                rule="templates over the atom alphabet {literal, {KEY}, {DOTTED.KEY}, {:param:}, escaped braces} up to 4 atoms, "
                     "parameters as constants/options/templates/datasets, options holding templated strings and containers of "
-                    "templated strings to reference depth 3; independent substitution that records its reads")
+                    "templated strings to reference depth 3; independent substitution that records its reads; directed family: the whole "
+                    "parameter-name alphabet and parameter look-alikes")
 
 
 # ================================================================== C10 / C11
@@ -2203,6 +2211,8 @@ def brace_resubstitution_program(prog) -> Optional[str]:
 def scalar_prefix_program(prog) -> Optional[str]:
     """trigger of F10: a Map assigns scalars to a key while the mapped expression reads a key below it"""
     keys = [n["key"] for n in prog["nodes"] if n["k"] == "option"]
+    # (a template reads the keys it references just as an Option does)
+    keys += [k for n in prog["nodes"] if n["k"] == "template" for k in ref_template_keys(n.get("t", ""))]
     for n in prog["nodes"]:
         if n["k"] == "map":
             for k, _ in n["its"]:
@@ -2242,7 +2252,8 @@ def c10_classify(prog, meta, what):
 C10 = CoreProp("C10", ("validate", "keys", "eval", "trace", "reads"), c10_programs, c10_oracle, classify=c10_classify,
                nontrivial=nontrivial_eval,
                rule="random graphs (bodies total; a second stream with bodies raising on declared inputs) x dictionary families; "
-                    "validate/keys/explain/evaluate on a cold graph, then validate/keys/evaluate again warm")
+                    "validate/keys/explain/evaluate on a cold graph, then validate/keys/evaluate again warm; directed families: "
+                    "dataset defaults, dataset classes")
 
 
 def hist_explain(rng, cfg, g: G, meta, n_dicts=3):
@@ -2423,7 +2434,8 @@ def c11_oracle(prog, meta, impl, model):
 C11 = CoreProp("C11", ("explain", "keys", "validate", "reads"), c11_programs, c11_oracle, classify=c11_classify,
                nontrivial=nontrivial_eval,
                rule="random graphs x (empty dictionary, increasing sub-dictionaries of a sufficient one, the full one): "
-                    "explain/keys/validate on fresh graphs")
+                    "explain/keys/validate on fresh graphs; directed families: pinned dispatch, namespaces and dataset classes with "
+                    "underscore-named members")
 
 
 # ================================================================== C12
@@ -2513,10 +2525,79 @@ def unmatched_switch_items(rng, n) -> List[Item]:
     return items
 
 
+EXC_POSITIONS = ["body", "callback", "effect", "predicate", "step", "apply", "dispatch", "bind", "coalesce_last", "funapp_arg"]
+
+
+def exception_class_items(rng, n) -> List[Item]:
+    """every exception class user code can raise (all built-in `Exception` subclasses constructible from a message —
+    RecursionError, MemoryError, StopIteration, OSError and relatives, the warnings — plus user classes with and without
+    a built-in base or a constructor of their own) at every position where the library calls user code: the failure
+    is an EvaluationError on the object evaluated whose chain ends in that exception; nothing is stored; the same graph
+    succeeds on the dictionaries the code accepts"""
+    import pylib
+    classes = sorted(pylib.EXC)
+    items = []
+    for i in range(n):
+        P = Prog()
+        cls = classes[i % len(classes)]
+        pos = EXC_POSITIONS[(i // len(classes) + i) % len(EXC_POSITIONS)]
+        bad = rng.choice([0, "x", None])
+        rs = {"raise": {"cls": cls, "on": [bad]}}
+        # (a callback / an effect receives the body's value: the harness body `b<i>` applied to a=bad)
+        rs_app = {"raise": {"cls": cls, "on": [{"$": "app", "f": f"b{i}", "a": [], "k": [["a", bad]]}]}}
+        a = P.option("A")
+        name = f"r{i}"
+        if pos == "body":
+            P.free(name, **rs)
+            root = P.dataset([("a", a)], fn_name=name)
+        elif pos == "callback":
+            P.free(name, **rs_app)
+            root = P.dataset([("a", a)], fn_name=P.free(f"b{i}"), callback=P.fnvalue(name))
+        elif pos == "effect":
+            P.free(name, **rs_app)
+            root = P.dataset([("a", a)], fn_name=P.free(f"b{i}"), effects=[P.fnvalue(name)])
+        elif pos == "predicate":
+            P.const_fn(name, True, **rs)
+            root = P.cached(P.case(a, [(P.fnvalue(name), P.value("yes"))], P.value("no")))
+        elif pos == "step":
+            P.free(name, **rs)
+            root = P.cached(P.apply(a, P.fnvalue(name), via="rshift"))
+        elif pos == "apply":
+            P.free(name, **rs)
+            root = P.cached(P.apply(a, P.fnvalue(name)))
+        elif pos == "dispatch":
+            P.const_fn(name, "x", **rs)
+            disp = P.dataset([("a", a)], fn_name=name, cache=P.new_cache("nocache"))
+            root = P.dataset([], dispatch=disp, table=[("x", P.value("impl-x"))], abstract=True)
+        elif pos == "bind":
+            root = P.cached(P.bind(a, [(1, P.value("one")), (2, P.value("two"))], None, cls=cls))
+            bad = 5
+        elif pos == "coalesce_last":
+            P.free(name, **rs)
+            root = P.cached(P.coalesce([P.option("Q"), P.apply(a, P.fnvalue(name))]))
+        else:
+            P.free(name, **rs)
+            P.free("outer")
+            root = P.dataset([("v", P.funapp(P.fnvalue(name), [a]))], fn_name="outer")
+        good = 1 if bad != 1 else 2
+        seq = [({"A": good}, False), ({"A": bad}, True), ({"A": good}, False), ({"A": bad, "ZZ": 1}, True), ({"A": 2}, False)]
+        recs, exp = [], []
+        for o, fails in seq:
+            P.evaluate(root, o)
+            P.evaluate(root, o, cache_off=True)
+            recs.append((len(P.ops) - 2, len(P.ops) - 1))
+            if fails:
+                exp.append(len(P.ops) - 2)
+        items.append((P.to_json(), {"fail": recs, "root": root, "root_cid": None, "raising": {name: cls},
+                                    "expect_cause": {"ops": exp, "cls": cls, "position": pos}}))
+    return items
+
+
 def c12_programs(rng, tier) -> List[Item]:
     items = corpus_items("C12")
     items += c12_domain_items(rng, sizes(tier, 40, 300))
     items += unmatched_switch_items(rng, sizes(tier, 44, 220))
+    items += exception_class_items(rng, sizes(tier, 80, 800))
     cfg = Cfg(raising=True)
     items += gen_items(rng, cfg, sizes(tier, 350, 4000), hist_failures)
     return items
@@ -2529,6 +2610,13 @@ def c12_oracle(prog, meta, impl, model):
         if isinstance(a, dict) and "r" in a and not (is_err(a) and a["r"][1][-1][0] == "SwitchError"):
             out.append(("an unmatched switch did not surface as an EvaluationError whose cause chain ends in the "
                         "unmatched-switch error", i, {"options": prog["ops"][i]["o"], "got": a["r"]}))
+    ec = meta.get("expect_cause")
+    for i in (ec or {}).get("ops", []):
+        a = impl[i] if i < len(impl) else None
+        if isinstance(a, dict) and "r" in a and a["r"][0] != "fuel" and \
+                not (is_err(a) and a["r"][1][0][0] in EVAL_ERRS and a["r"][1][-1][0] == ec["cls"]):
+            out.append((f"an exception raised by user code ({ec['position']}) did not surface as an EvaluationError whose "
+                        "cause chain ends in that exception", i, {"raised": ec["cls"], "options": prog["ops"][i]["o"], "got": a["r"]}))
     for i, j in meta.get("fail", []):
         a = impl[i]
         if "r" not in a or a["r"][0] == "fuel":
@@ -2576,7 +2664,8 @@ def _under_wrapper(prog) -> bool:
 C12 = CoreProp("C12", ("eval",), c12_programs, c12_oracle, classify=c01_classify, nontrivial=nontrivial_eval,
                rule="graphs in which ~25% of the user callables raise one of six exception classes (always or on chosen "
                     "inputs), histories mixing failing and succeeding evaluations with revisits on one long-lived graph, each "
-                    "paired with its cache-off twin")
+                    "paired with its cache-off twin; directed families: raising domain predicates, unmatched switches over unorderable "
+                    "keys, every built-in Exception subclass x every position where user code runs")
 
 
 # ================================================================== C16
@@ -2816,7 +2905,8 @@ def c16_oracle(prog, meta, impl, model):
 C16 = CoreProp("C16", ("eval", "trace", "cache", "log"), c16_programs, c16_oracle, nontrivial=nontrivial_cache,
                rule="dataset graphs x dictionaries x switch settings (cache: on/DISABLED/DISABLE/context; effects: on/option/"
                     "per-dataset; logging: on/option/context): 8 random combinations per dictionary, plus the full 36-combination "
-                    "cross product on a subset; nocache datasets occur in the graphs themselves")
+                    "cross product on a subset; nocache datasets occur in the graphs themselves; directed families: nocache through "
+                    "derivation, log effects of every level, every switch in every spelling (literals and references)")
 
 
 # ================================================================== C17
@@ -2926,7 +3016,8 @@ def c17_oracle(prog, meta, impl, model):
 C17 = CoreProp("C17", ("cache", "eval"), c17_programs, c17_oracle, classify=c01_classify, nontrivial=lambda p, i: True,
                rule="exhaustive fault scripts over {behave, miss, lie-exists, fail-get, forget} on the first 4 (thorough: 6, "
                     "4 fault kinds) backend calls of a two-dataset graph warm and cold; random scripts of up to 10 calls on "
-                    "random dataset graphs")
+                    "random dataset graphs; every second scripted backend raises a CacheGetFailure SUBCLASS on behalf of an inner tier; "
+                    "a get/set-only backend")
 
 
 # ================================================================== C18 (the part that rests on the core model)
